@@ -281,6 +281,8 @@ def compile(object, return_code=False):
     def _eval_app(origin):
         if isinstance(origin, tracer.signature.python.Call):
             # ################## __call__ ##################
+            for dependency in origin.additional_dependencies:
+                _get_expression_for(dependency)  # Emit statements of dependencies before this call
             function = _get_expression_for(origin.function)
             args = [_get_expression_for(i) for i in origin.args]
             kwargs = {k: _get_expression_for(v) for k, v in origin.kwargs.items()}
@@ -297,6 +299,8 @@ def compile(object, return_code=False):
 
         elif isinstance(origin, tracer.signature.python.CallInplace):
             # ################## __call__ inplace ##################
+            for dependency in origin.additional_dependencies:
+                _get_expression_for(dependency)  # Emit reads of the old value before the inplace update
             xs = _get_expression_for(origin.xs)
             function = _get_expression_for(origin.function)
             args = [_get_expression_for(i) for i in origin.args]
